@@ -28,7 +28,7 @@ func init() {
 	})
 	register(&Rule{
 		Name:     "FORMSOURCE",
-		Doc:      "the body map of an HTTP request (the source of api.body / api.form) is filled from net/http.Request.PostForm, never from Request.Form: Form is PostForm MERGED with the URL query, so keys that exist only in the query string would be found as body members",
+		Doc:      "the body map of an HTTP request (the source of api.body / api.form) is filled from net/http.Request.PostForm, never from Request.Form: Form is PostForm MERGED with the URL query, so keys that exist only in the query string would be found as body members; and an accessor named …PostForm… reads Request.PostFormValue/PostForm, never FormValue/Form",
 		Configs:  "NP",
 		Floor:    map[string]int{"N": 1, "P": 1},
 		Controls: 1,
@@ -142,6 +142,29 @@ func runFormSource(rc *RuleCtx) {
 				fd, ok := d.(*ast.FuncDecl)
 				if !ok || fd.Body == nil {
 					continue
+				}
+				// clause (b): an accessor that is named after the POST form reads the POST form
+				if strings.Contains(fd.Name.Name, "PostForm") {
+					ast.Inspect(fd.Body, func(n ast.Node) bool {
+						sel, ok := n.(*ast.SelectorExpr)
+						if !ok {
+							return true
+						}
+						t := p.TypesInfo.TypeOf(sel.X)
+						if t == nil || !strings.HasSuffix(strings.TrimPrefix(t.String(), "*"), "net/http.Request") {
+							return true
+						}
+						switch sel.Sel.Name {
+						case "PostFormValue", "PostForm", "FormValue", "Form":
+						default:
+							return true
+						}
+						rc.Examined++
+						good := strings.HasPrefix(sel.Sel.Name, "PostForm")
+						rc.add(nil, declName(rel, fd), "Request."+sel.Sel.Name, sel.Pos(), map[bool]string{true: "discharged", false: "violated"}[good],
+							map[bool]string{true: "the api.form accessor reads the POST form only", false: "the api.form accessor reads Request." + sel.Sel.Name + ", which falls back to the URL query: a same-named query parameter is taken for a form value"}[good], false)
+						return true
+					})
 				}
 				ast.Inspect(fd.Body, func(n ast.Node) bool {
 					as, ok := n.(*ast.AssignStmt)
